@@ -363,6 +363,25 @@ static const uint8_t R[64] = {
   2, 2, 2, 2, 2, 2, 2, 2, 3, 3, 4, 2, 1, 1, 2, 0,
 };
 
+/* Largest excursion above (HI[]) and below (LO[]) the starting length reached
+   by any prefix of the up to three delta steps encoded by a 6-bit pattern.
+   The reference implementation checks the length before every single step,
+   so a path like 20 -> 21 -> 20 or 1 -> 0 -> 1 is invalid even though the
+   combined result of the steps is within limits. */
+static const uint8_t HI[64] = {
+  0, 0, 0, 0, 0, 0, 0, 0, 0, 0, 0, 0, 0, 0, 0, 0,
+  0, 0, 0, 0, 0, 0, 0, 0, 0, 0, 0, 0, 0, 0, 0, 0,
+  1, 1, 1, 1, 1, 1, 1, 1, 2, 2, 3, 2, 1, 1, 1, 1,
+  0, 0, 0, 0, 0, 0, 0, 0, 0, 0, 1, 0, 0, 0, 0, 0,
+};
+
+static const uint8_t LO[64] = {
+  0, 0, 0, 0, 0, 0, 0, 0, 0, 0, 0, 0, 0, 0, 0, 0,
+  0, 0, 0, 0, 0, 0, 0, 0, 0, 0, 0, 0, 0, 0, 0, 0,
+  0, 0, 0, 0, 0, 0, 0, 0, 0, 0, 0, 0, 0, 0, 0, 1,
+  1, 1, 1, 1, 1, 1, 1, 1, 1, 1, 1, 1, 2, 2, 2, 3,
+};
+
 
 #define DECLARE unsigned w; uint64_t v; const uint32_t *next, *limit,   \
                                           *tt_limit; uint32_t *tt
@@ -581,6 +600,9 @@ retrieve(struct decoder_state *restrict ds, struct bitstream *bs)
       while (rs->j < rs->alpha_size) {
         unsigned k = PEEK(6u);
 
+        if (unlikely(rs->code_len[rs->j] + HI[k] > MAX_CODE_LENGTH ||
+                     rs->code_len[rs->j] < MIN_CODE_LENGTH + LO[k]))
+          return ERR_DELTA;
         rs->code_len[rs->j] += R[k];
         if (unlikely(rs->code_len[rs->j] < 3 + MIN_CODE_LENGTH ||
                      rs->code_len[rs->j] > 3 + MAX_CODE_LENGTH))
